@@ -296,6 +296,25 @@ where
 }
 impl<S> ObservableExt<V, E> for Spy<S> {}
 
+/// A transparent stage that swallows unsubscription: the upstream subscription is forgotten and
+/// a unit subscription is handed out, so the upstream keeps pushing after unsubscribe() (a
+/// source that cannot be cancelled).
+#[derive(Clone)]
+pub struct Deaf<S> {
+  pub src: S,
+}
+impl<S, O> Observable<V, E, O> for Deaf<S>
+where
+  O: Observer<V, E>,
+  S: Observable<V, E, O>,
+{
+  type Unsub = ();
+  fn actual_subscribe(self, observer: O) -> Self::Unsub {
+    std::mem::forget(self.src.actual_subscribe(observer));
+  }
+}
+impl<S> ObservableExt<V, E> for Deaf<S> {}
+
 pub struct TrackedSub<U> {
   pub u: U,
   pub id: u32,
